@@ -33,7 +33,7 @@ from ..util import data, Rng, pick_size
 
 SWEEP_OPS = ["hash_oneshot", "hash_life", "scrypt", "bcrypt", "pkcs1_15", "oaep", "strxor", "ec_point", "ec_sign", "eddsa", "modexp",
              "monty_mult", "cpuid", "poly1305", "dh", "hash_pbkdf2", "ed_point", "x_point", "aes_short", "ocb_tag", "keccak_squeeze", "blake2_params",
-             "cfb_badseg", "mixed_curves", "ecb_partial", "ctr_layouts", "ctr_layouts", "strided", "strided", "strxor_tiny"]
+             "cfb_badseg", "mixed_curves", "ecb_partial", "ctr_layouts", "ctr_layouts", "strided", "strided", "strxor_tiny", "ctor_refused", "ctor_refused", "key_sizes", "key_sizes"]
 WS_CURVES = ["p192", "p224", "p256", "p384", "p521"]
 
 
@@ -328,6 +328,65 @@ class Machine(object):
             else:
                 ct = (int.from_bytes(data(seed, 128), "big") % int(k.n)).to_bytes(128, "big")
             return PKCS1_OAEP.new(k, hashAlgo=hm, label=msg[:salt]).decrypt(ct)
+        if kind == "ctor_refused":
+            # constructors that are refused after part of the object exists (bad IV / nonce / unknown keyword / bad segment
+            # size), for every block cipher, with and without the accelerated implementation: what was built is released
+            # by the matching routine
+            import Crypto.Cipher as CC
+            from Crypto.Cipher import AES, DES, DES3, ARC2, Blowfish, CAST
+            mods = [(AES, 16), (AES, 32), (DES, 8), (DES3, 24), (ARC2, 16), (Blowfish, 16), (CAST, 16)]
+            res = []
+            for j in range(4):
+                mod_, kl = mods[(salt + j) % len(mods)]
+                key = F.des3_key(seed, 24) if mod_ is DES3 else data(seed, kl)
+                bs = mod_.block_size
+                extra = {"use_aesni": bool((salt >> j) & 1)} if mod_ is AES else {}
+                bad = [dict(mode=mod_.MODE_CBC, iv=data(seed, bs + 1)), dict(mode=mod_.MODE_CBC, iv=b""), dict(mode=mod_.MODE_CFB, iv=data(seed, bs), segment_size=7),
+                       dict(mode=mod_.MODE_CTR, nonce=data(seed, bs + 3)), dict(mode=mod_.MODE_ECB, bogus=1), dict(mode=mod_.MODE_OFB, iv=data(seed, bs), extra_kw=2),
+                       dict(mode=mod_.MODE_EAX, nonce=b""), dict(mode=mod_.MODE_CTR, nonce=b"", initial_value=1 << (8 * bs + 1)),
+                       dict(mode=mod_.MODE_CBC, iv=u"a string" * 2), dict(mode=99)]
+                if bs == 16:
+                    bad += [dict(mode=mod_.MODE_GCM, nonce=b""), dict(mode=mod_.MODE_CCM, nonce=data(seed, 3)), dict(mode=mod_.MODE_OCB, nonce=data(seed, 16)),
+                            dict(mode=mod_.MODE_SIV, nonce=b""), dict(mode=mod_.MODE_GCM, nonce=data(seed, 12), mac_len=3), dict(mode=mod_.MODE_CCM, nonce=data(seed, 11), mac_len=5)]
+                for b in bad[(salt >> 2) % 3::3]:
+                    kw = dict(b)
+                    mode = kw.pop("mode")
+                    kw.update(extra)
+                    try:
+                        c = mod_.new(key, mode, **kw)
+                        res.append("built")
+                        del c
+                    except (TypeError, ValueError, KeyError, OverflowError) as e:
+                        res.append(type(e).__name__)
+                gc.collect()
+            return res
+        if kind == "key_sizes":
+            # every key length against every nonce length of the stream / AEAD constructions whose native code takes the key
+            # length on trust once Python has let it through
+            from Crypto.Cipher import ChaCha20, ChaCha20_Poly1305, Salsa20, AES, ARC4, Blowfish, ARC2, CAST
+            res = []
+            kl = [0, 1, 8, 15, 16, 17, 24, 31, 32, 33, 40, 48, 64][salt % 13]
+            kbuf = bytearray(data(seed, kl))               # exactly kl bytes on the heap: an over-read is a finding
+            for nl in (0, 8, 12, 16, 24):
+                for name, f in (("chacha", lambda: ChaCha20.new(key=bytes(kbuf), nonce=data(seed, nl)).encrypt(b"x" * 70)),
+                                ("chachapoly", lambda: ChaCha20_Poly1305.new(key=memoryview(kbuf), nonce=data(seed, nl)).encrypt_and_digest(b"x" * 70)),
+                                ("salsa", lambda: Salsa20.new(key=bytes(kbuf), nonce=data(seed, nl)).encrypt(b"x" * 70))):
+                    try:
+                        f()
+                        res.append((name, nl, "ok"))
+                    except (TypeError, ValueError) as e:
+                        res.append((name, nl, type(e).__name__))
+            for name, f in (("aes", lambda: AES.new(bytes(kbuf), AES.MODE_ECB, use_aesni=bool(salt & 16)).encrypt(bytes(16))),
+                            ("aes-siv", lambda: AES.new(bytes(kbuf), AES.MODE_SIV).encrypt_and_digest(b"m")),
+                            ("arc4", lambda: ARC4.new(bytes(kbuf)).encrypt(b"m" * 40)), ("bf", lambda: Blowfish.new(bytes(kbuf), Blowfish.MODE_ECB).encrypt(bytes(8))),
+                            ("arc2", lambda: ARC2.new(bytes(kbuf), ARC2.MODE_ECB, effective_keylen=40 + salt).encrypt(bytes(8))),
+                            ("cast", lambda: CAST.new(bytes(kbuf), CAST.MODE_ECB).encrypt(bytes(8)))):
+                try:
+                    f()
+                    res.append((name, "ok"))
+                except (TypeError, ValueError) as e:
+                    res.append((name, type(e).__name__))
+            return res
         if kind == "strided":
             # memoryviews that are not C-contiguous, as data and as output: refused or processed, never the memory behind them
             from Crypto.Util.strxor import strxor, strxor_c
